@@ -5,8 +5,49 @@ FAMILIES = [
     {"name": "relayxlate", "family": "relayxlate", "group": "relayer", "driver": "drv_relayxlate",
      "n_quick": 40000, "n_thorough": 400000, "seeds_thorough": 3},
 ]
-RULE = "tbd"
-TRUSTED_BASE = []
-ASSUMPTIONS = []
-UNPROVED = []
-MANIFEST = {"text": "tbd", "note": "tbd", "technique": "Lean 4 proof + differential correspondence (model vs real Go)", "design_ref": "4/C16"}
+RULE = ("relayxlate: per 8 cases — 2 direct EthereumEventToEthBridgeClaim calls and 1 through real ABI packing + logToEvent "
+        "(20-byte addresses incl. null, amounts 0..2^256+ and negative, chain ids / nonces around 2^63 and 2^64 and negative, "
+        "symbols of any case with 'c' anywhere, non-ASCII and invalid UTF-8 symbols, recipients valid / upper-case / mixed-case / "
+        "bad checksum / truncated / wrong prefix / empty / random bytes, claim types 0..3, three symbol tables); 3 "
+        "BurnLockEventToCosmosMsg calls on attribute lists with missing / duplicated / reordered / foreign attributes and corrupt "
+        "values (base-0 integer texts, separators, signs, hex receivers with and without prefix); prophecy ids of neighbouring "
+        "(nonce, sender) pairs or AttributesToEthereumBridgeClaim; 1 composition case: the real msgServer.Lock/Burn on a real "
+        "keeper set emits its event, the real parser translates it.  non-trivial = distinct input that was translated (not refused)")
+TRUSTED_BASE = [
+    "Lean 4.33.0 kernel; axioms propext, Classical.choice, Quot.sound (audited per theorem on every run)",
+    "hand-written Lean model of cmd/ebrelayer/txs/parser.go, the prophecy id of x/ethbridge/types/claim.go and the lock/burn "
+    "event emitters of x/ethbridge/keeper/msg_server.go, tied by differential execution against the real Go functions",
+    "Go harness + line protocol + driver parsing; hooks cmd/ebrelayer/{txs,relayer}/export_verif.go (build tag verif)",
+    "cosmos-sdk bech32 encode/decode (enters the model as the environment function Env.bech32; the harness decodes the claim's "
+    "receiver/validator text back to bytes), go-ethereum common.Address.Hex EIP-55 letter case (harness lower-cases), "
+    "go-ethereum ABI packing/unpacking, math/big SetString (modelled operation by operation, exercised by the correspondence)",
+    "Go strings.ToLower on strings containing a byte >= 0x80 (environment function Env.lower; ASCII path is modelled and proved)",
+]
+ASSUMPTIONS = [
+    "envelope for the narrowing clause: chain ids and nonces in [0, 2^63) (outside it big.Int.Int64 wraps; modelled, stated by narrowing_range)",
+    "claim identity is injective per chain id (one relayer watches one chain); across chain ids the unseparated concatenation can collide (O1, decide-d witness)",
+    "the symbol table is one-to-one (bimap built from a JSON object with distinct values)",
+    "64-bit platform: int(x) and int64(x) are the identity on int64",
+]
+UNPROVED = [
+    "recipient fidelity is proved as 'the decoded address bytes are copied'; bech32 itself is not modelled",
+    "non-ASCII lower-casing is a parameter of the model (Env.lower)",
+    "ABI decoding in logToEvent is not modelled: the log2claim stream ties the composition ABI-pack -> logToEvent -> claim to the same model function by testing only",
+    "composition with the chain is proved against the model of the emitters (emitAttrs), which is tied to msgServer.Lock/Burn by the L1 "
+    "correspondence (real keepers, real event manager), not by a full ABCI (L2) run",
+    "AttributesToEthereumBridgeClaim (replay helper; last-wins, no completeness check) is modelled and differential-tested, no theorem",
+]
+MANIFEST = {
+    "text": "Lean 4 theorems over a model of the relayer's two translation functions for every event field value and every attribute "
+            "list: field fidelity in both directions, rejection of malformed events and of incomplete attribute lists, no-wrap narrowing "
+            "below 2^63, prophecy-id injectivity per chain, burn symbol = attribute minus exactly the leading 'c' (iff), decimal "
+            "round trip through SetString, composition with the chain's own lock/burn emitters.  Tied to the Go code by differential "
+            "execution of the real functions (incl. real ABI packing + logToEvent and the real msgServer emitting real events) and by "
+            "evaluating the theorems' own decidable predicates on the implementation's outputs.",
+    "note": "Trusted: Lean kernel (+propext, Classical.choice, Quot.sound); hand-written model tied only by the correspondence run; "
+            "bech32, EIP-55 casing, ABI codec, Unicode lower-casing enter as environment values / are normalised by the harness. "
+            "Defects reproduced and repaired: F6 (SplitAfter burn symbol) and F6b (incomplete attribute list accepted when another "
+            "attribute is repeated) — patches fixes/F6.diff, fixes/F6b.diff applied to the working tree.",
+    "technique": "Lean 4 proof + differential correspondence (model vs real Go)",
+    "design_ref": "4/C16",
+}
